@@ -163,7 +163,8 @@ func (d *PathDecoder) isPosInsideAttrExpr(attr *hclsyntax.Attribute, pos hcl.Pos
 	}
 
 	// edge case: near end (typically newline char)
-	if attr.Expr.Range().End.Byte == pos.Byte {
+	// (the end of an unclosed expression is not known to the parser and left as zero)
+	if attr.Expr.Range().End.Byte == pos.Byte && attr.Expr.Range().End.Byte >= attr.Expr.Range().Start.Byte {
 		return true
 	}
 
